@@ -6,6 +6,7 @@ package server
 // library-free replay loop. One generic entry point (vfCheck) per property.
 
 import (
+	"runtime"
 	"encoding/json"
 	"fmt"
 	"hash/fnv"
@@ -174,7 +175,13 @@ func vfCheck[P any](t *testing.T, prop vfProp[P]) {
 	safeRun := func(p P) (res vfResult) {
 		defer func() {
 			if r := recover(); r != nil {
-				res.failf("harness-or-proxy-panic", "panic while executing case: %v\n%s", r, debug.Stack())
+				extra := ""
+				if strings.Contains(fmt.Sprint(r), "blocked goroutines remain") {
+					// the leaked goroutines are still there: show them
+					buf := make([]byte, 1<<20)
+					extra = "\nALL GOROUTINES:\n" + string(buf[:runtime.Stack(buf, true)])
+				}
+				res.failf("harness-or-proxy-panic", "panic while executing case: %v\n%s%s", r, debug.Stack(), extra)
 			}
 		}()
 		return prop.run(t, p)
